@@ -113,6 +113,7 @@ def gen_case(seed, tier, i):
         return b
 
     ops = []
+    env = rng.choice(['default', 'default', 'default', 'explicit', 'interpreter'])
     nsess = rng.randint(2, 4) if tier == 'quick' else rng.randint(2, 7)
     for j in range(nsess):
         b = buffer()
@@ -121,7 +122,7 @@ def gen_case(seed, tier, i):
         path = rng.choice(['buf.py', 'pa/test_buf.py', 'test_buf.py']) if pathed else None
         if path and path.startswith('pa/') and 'pa' not in mods:
             path = 'buf.py'
-        ops.append({'op': 'script', 'sid': sidj, 'code': b.text, 'path': path, 'project': project})
+        ops.append({'op': 'script', 'sid': sidj, 'code': b.text, 'path': path, 'project': project, 'env': env})
         probes = list(b.probes)
         rng.shuffle(probes)
         for p in probes[:rng.randint(2, 6)]:
@@ -149,13 +150,18 @@ def gen_case(seed, tier, i):
             ops.append({'op': 'host_restart'})
         elif r < 0.45:
             ops.append({'op': 'gc'})
+    cwd_in = rng.random() < 0.6
     faults = []
     if rng.random() < 0.3:
         faults.append({'fn': 'get_module_info', 'occ': rng.randint(1, 6), 'phase': 'reply_exception', 'exc': 'RuntimeError'})
     if rng.random() < 0.2:
         faults.append({'fn': 'load_module', 'occ': 1, 'phase': rng.choice(['kill_after_send', 'reply_exception'])})
     return {'id': 'c12-%d' % i, 'init': init, 'ops': ops, 'faults': faults, 'hashseed': rng.randint(0, 2),
-            'popt': popt, 'names': names, 'cwd_in_project': rng.random() < 0.6}
+            'popt': popt, 'names': names, 'cwd_in_project': cwd_in, 'env': env,
+            # '' on the host's sys.path (interactive session / python -c / embedding host) - but never
+            # together with cwd inside the project: then ANY lazy stdlib import of the host program
+            # resolves to project files (math.py ...), which is Python's doing, not jedi's
+            'host_path_empty_entry': (not cwd_in) and rng.random() < 0.7}
 
 
 class C12(base.Engine):
@@ -179,7 +185,9 @@ class C12(base.Engine):
         driver.begin_case(case)
         root = driver.new_root('c12')
         try:
-            extra = {'cwd': 'w'} if case.get('cwd_in_project') else None
+            extra = {'cwd': 'w'} if case.get('cwd_in_project') else {}
+            if case.get('host_path_empty_entry'):
+                extra['host_path_empty_entry'] = True
             events, bad = driver.run_history(case, root, inv=['sentinel', 'host', 'helper'], extra=extra)
         finally:
             driver.rm_root(root)
@@ -201,6 +209,7 @@ class C12(base.Engine):
         st = dict(stats)
         st['digest'] = driver.events_digest(events)
         st['popt'] = case['popt']
+        st['env'] = case.get('env')
         st['names'] = case['names']
         if problems:
             return {'verdict': 'violation', 'sig': problems[0][0],
@@ -248,6 +257,7 @@ class C12(base.Engine):
                 if isinstance(v, int) and not isinstance(v, bool):
                     tot[k] += v
             popts[st.get('popt')] += 1
+            tot['env:%s' % st.get('env')] += 1
             for n in st.get('names', []):
                 names[n] += 1
             if st.get('helper_requests', 0) > 0:
@@ -269,6 +279,7 @@ class C12(base.Engine):
             'faults_fired_by_kind': {k[6:]: v for k, v in tot.items() if k.startswith('fired:')},
             'refactorings_applied': tot['applied'],
             'project_options': dict(popts),
+            'environments': {k[4:]: v for k, v in tot.items() if k.startswith('env:')},
             'adversarial_names': dict(names),
         }
 
